@@ -842,6 +842,10 @@ found:
 	for {
 		escape := false
 		for i, c := range x.line {
+			if byteString && c >= 0x80 {
+				x.SyntaxError("bytes can only contain ASCII literal characters.")
+				return eofError, nil
+			}
 			if escape {
 				// Continuation line - remove \ then continue
 				// (a raw string keeps both characters)
